@@ -97,14 +97,14 @@ def rule_m1(ctx: Ctx) -> None:
     eff = pur.effects(memo)
     if eff.reasons:
         for f2, n2, why in eff.reasons:
-            ctx.violation("C09-M1", f2, n2, f"the memoised standardisation is not a pure function of its key: {why}", path=[memo.where, f2.where])
+            ctx.violation("C09-M1", f2, n2, f"the memoised standardisation is not a pure function of its key: {why}", path=[memo.where, f2.where], robust=True)
         return
     free = {n.id for st in memo.body for n in ast.walk(st) if isinstance(n, ast.Name) and isinstance(n.ctx, ast.Load)}
     bound = {n.id for st in memo.body for n in ast.walk(st) if isinstance(n, ast.Name) and isinstance(n.ctx, ast.Store)} | set(memo.params)
     bound |= {a.arg for st in memo.body for n in ast.walk(st) if isinstance(n, ast.Lambda) for a in n.args.args}
     extra = {x for x in free - bound if x not in ("sorted", "enumerate", "operator", "cls", "tuple", "len", "range", "Perm", "zip", "list", "itertools")}
     if extra:
-        ctx.violation("C09-M1", memo, memo.node, f"the memoised value depends on {sorted(extra)} besides its key")
+        ctx.violation("C09-M1", memo, memo.node, f"the memoised value depends on {sorted(extra)} besides its key", robust=True)
         return
     ctx.ok("C09-M1", memo.where, f"lru_cache keyed on ({', '.join(memo.params)}); value is a pure function of the key (callees {sorted(c.split(':')[1] for c in eff.callees)})", memo.node, memo)
     ctx.dynamic.extend(eff.dynamic)
@@ -703,7 +703,7 @@ def rule_x1(ctx: Ctx) -> None:
                 break
         if bad:
             ctx.violation("C09-X1", f, bad[0], f"{cname}.{mname} leaves integer arithmetic ({bad[1]}: `{unparse(bad[0])[:60]}`): ranks of permutations of length 19 and more (and of mesh patterns of length 7 and more) exceed 2**53 "
-                          "and lose their low digits, so rank and unrank stop being inverse")
+                          "and lose their low digits, so rank and unrank stop being inverse", robust=True)
         else:
             ctx.ok("C09-X1", f.where, "integer arithmetic only (no true division, float conversion or math.* float function)", f.node, f)
 
